@@ -30,6 +30,19 @@ def chain_of(p):
     return cur, stack
 
 
+def enclosing_cmds(p, target, acc=()):
+    """The command nodes enclosing `target` (outermost first), or None when it is not below `p`."""
+    if p is target:
+        return list(acc)
+    if p.get("k") == "cmd":
+        acc = acc + (p,)
+    for c in gen.children(p):
+        r = enclosing_cmds(c, target, acc)
+        if r is not None:
+            return r
+    return None
+
+
 class C06(Property):
     pid = "C06"
     quick_n = 3000
@@ -89,9 +102,14 @@ class C06(Property):
                                           tags={"role": "bad", "group": gid, "why": why, "frags": frags, "value": bad,
                                                 "in_alt": id(node) in in_alt}))
                         j += 1
-                # env-supplied invalid value for an absent env-backed numeric argument
+                # env-supplied invalid value for an absent env-backed numeric argument of a command level the line ENTERS
+                # (an item of a subcommand that is not on the line is never evaluated: its variable is not "present")
+                entered = [p.node for p in pieces if p.kind == "cmdname"]
                 for x in gen.walk(opts):
                     if x["k"] == "arg" and x["n"]["env"] and x["ty"] in ("u32", "i64"):
+                        path = enclosing_cmds(opts, x)
+                        if path is None or not all(any(c is e for e in entered) for c in path):
+                            continue
                         if not any(p.kind == "chunk" and p.chunk.node is x for p in pieces):
                             cases.append(Case("%se%d" % (gid, j), opts, base, env=[(x["n"]["env"][0].encode(), b"notanumber")],
                                               tags={"role": "badenv", "group": gid, "frags": INT_ERRS, "in_alt": id(x) in in_alt}))
